@@ -90,9 +90,10 @@ def resolve : List Scope → String → Option Closure
 def bitmapOf (mem : Nat → Bool) : List Nat :=
   (List.range 8).map (fun w => ((List.range 32).map (fun b => if mem (w * 32 + b) then 2 ^ b else 0)).foldl (· + ·) 0)
 
-/-- One source form as an instruction over closures.  `chain` bounds keyword → keyword reference chains
+/-- One source form as an instruction over closures.  Keyword references are LEXICALLY scoped: the rule bound to a name
+    is read in the grammar in which it was found (`resolve` returns the scope chain from there outwards).  `chain` bounds keyword → keyword reference chains
     (the compiler gives up after JANET_RECURSION_GUARD links). -/
-def fetchN : Nat → Closure → Option (Instr Closure)
+def fetchN (dflt : Scope) : Nat → Closure → Option (Instr Closure)
   | 0, _ => none
   | chain + 1, ⟨sc, p⟩ =>
     let cl (q : Patt) : Closure := ⟨sc, q⟩
@@ -103,11 +104,16 @@ def fetchN : Nat → Closure → Option (Instr Closure)
     | .bool false => some (.notnchar 0)
     | .ref name =>
       match resolve sc name with
-      | some c => fetchN chain c
-      | none => none
+      | some c => fetchN dflt chain c
+      | none =>
+        -- `(dyn :peg-grammar)`: observed behaviour: a default rule's body is read in the scope of the REFERENCE
+        -- (so a user rule :d changes what the default :d+ = (some :d) means); user rules are lexically scoped
+        match lookupScope dflt name with
+        | some p => fetchN dflt chain ⟨sc, p⟩
+        | none => none
     | .grammar rules =>
       match lookupScope rules "main" with
-      | some m => fetchN chain ⟨rules :: sc, m⟩
+      | some m => fetchN dflt chain ⟨rules :: sc, m⟩
       | none => none
     | .range [(lo, hi)] => some (.range lo hi)
     | .range rs => some (.set (bitmapOf (fun c => rs.any (fun r => r.1 ≤ c ∧ c ≤ r.2))))
@@ -153,6 +159,7 @@ def fetchN : Nat → Closure → Option (Instr Closure)
       some (.readint (width + (if signed then 16 else 0) + (if be then 32 else 0)) tag)
     | .number q base tag => some (.capturenum (cl q) base tag)
 
-def fetch (c : Closure) : Option (Instr Closure) := fetchN 1024 c
+/-- `dflt` = the default grammar `(dyn :peg-grammar)` -/
+def fetch (dflt : Scope) (c : Closure) : Option (Instr Closure) := fetchN dflt 1024 c
 
 end JanetModel.Peg.Spec
